@@ -2,4 +2,6 @@ SPECIFICATION Spec
 CONSTANTS QCap = 2 MaxPend = 1 MaxOps = 4
           NoInboundFilter = FALSE NoNullCheck = TRUE AnyoneOpens = FALSE
           RepIds = {1, 5, 7}
+          TrackHistory = FALSE FlowCache = "none" HostIps = {"x"} HostPorts = {1}
+          SrcSet = {"prev", "port", "other"} DkSet = {"v4", "v6", "dom4", "dom6", "domfail", "null"}
 INVARIANT NeverToNull
